@@ -17,7 +17,8 @@
                stale = the kernel was changed behind Felix's back (or Felix was restarted) after
                        the last successful read of the kernel by Felix;
                due   = since then Felix has had a documented reason to re-read (refresh interval
-                       elapsed, a write was rejected, it is a fresh process).
+                       elapsed, it is a fresh process); within one Apply a rejected write is such
+                       a reason too (phase.notified).
    The environment (ExternalEdit, failures, Tick, Restart) is unconstrained; Felix's steps are the
    kernel commands the mock sees (Read, Write) bracketed by ApplyBegin / ApplyEnd.
 
@@ -38,7 +39,7 @@ VARIABLES cfg,                 \* [mode: "insert"|"append", ownsAll: BOOLEAN, kc
           desired,             \* [chains: name :-> Seq(body), ins: kchain -> Seq(body), app: kchain -> Seq(body)]
           kernel,              \* name :-> Seq([h, id, tgt])
           belief,              \* [stale: BOOLEAN, due: BOOLEAN]
-          phase,               \* [inApply, readFailed, envFail: BOOLEAN]
+          phase,               \* [inApply, readFailed, envFail, notified, consistent: BOOLEAN] (the last four: about this Apply)
           known                \* {<<chain, content>>}: renderings seen at the end of converged applies
 vars == <<cfg, desired, kernel, belief, phase, known>>
 
@@ -137,7 +138,7 @@ Reset(c, k) ==
     /\ cfg' = c /\ kernel' = k
     /\ desired' = [chains |-> [x \in {} |-> <<>>], ins |-> [x \in c.kchains |-> <<>>], app |-> [x \in c.kchains |-> <<>>]]
     /\ belief' = [stale |-> TRUE, due |-> TRUE]
-    /\ phase' = [inApply |-> FALSE, readFailed |-> FALSE, envFail |-> FALSE]
+    /\ phase' = [inApply |-> FALSE, readFailed |-> FALSE, envFail |-> FALSE, notified |-> FALSE, consistent |-> TRUE]
     /\ known' = {}
 
 SetChain(c, rules) == Idle /\ desired' = [desired EXCEPT !.chains = Put(@, c, rules)]
@@ -158,8 +159,11 @@ Tick == Idle /\ belief' = [belief EXCEPT !.due = TRUE] /\ UNCHANGED <<cfg, desir
 Restart == /\ Idle /\ desired' = EmptyDesired /\ belief' = [stale |-> TRUE, due |-> TRUE]
            /\ UNCHANGED <<cfg, kernel, phase, known>>
 
-ApplyBegin == /\ Idle /\ Consistent(desired)
-              /\ phase' = [inApply |-> TRUE, readFailed |-> FALSE, envFail |-> FALSE]
+\* Apply may be called at any time; when the caller breaks its side of the contract (a jump to an
+\* undefined chain) only the foreign-content clauses are demanded of this Apply
+ApplyBegin == /\ Idle
+              /\ phase' = [inApply |-> TRUE, readFailed |-> FALSE, envFail |-> FALSE, notified |-> FALSE,
+                           consistent |-> Consistent(desired)]
               /\ UNCHANGED <<cfg, desired, kernel, belief, known>>
 \* Felix reads the whole table (iptables-save / nft list)
 Read(ok) == /\ phase.inApply
@@ -171,24 +175,24 @@ Write(ok, injected, k, touched) ==
     /\ phase.inApply
     /\ IF ok
          THEN /\ ForeignSame(kernel, k)
-              /\ (~belief.stale /\ ~phase.envFail) => Minimal(kernel, desired, touched)
+              /\ (phase.consistent /\ ~belief.stale /\ ~phase.envFail) => Minimal(kernel, desired, touched)
               /\ kernel' = k
               /\ UNCHANGED <<belief, phase>>
          ELSE /\ k = kernel                                 \* a rejected command changes nothing
-              /\ belief' = [belief EXCEPT !.due = TRUE]
-              \* only a failure made by the environment excuses anything later in this Apply; a
+              /\ UNCHANGED belief
+              \* a rejected write is a reason to look again before this Apply completes; only a failure made by the environment excuses anything later in this Apply; a
               \* command the kernel rejects on its merits is Felix's own doing
-              /\ phase' = IF injected THEN [phase EXCEPT !.envFail = TRUE] ELSE phase
+              /\ phase' = [phase EXCEPT !.notified = TRUE, !.envFail = @ \/ injected]
               /\ kernel' = kernel
     /\ UNCHANGED <<cfg, desired, known>>
-ConvergenceDue == ~belief.stale \/ (belief.due /\ ~phase.readFailed)
+ConvergenceDue == ~belief.stale \/ ((belief.due \/ phase.notified) /\ ~phase.readFailed)
 ApplyEnd(ok) ==
     /\ phase.inApply
     /\ IF ok
-         THEN /\ ConvergenceDue => Converged(kernel, desired)
-              /\ known' = IF ~belief.stale /\ Converged(kernel, desired)
+         THEN /\ (phase.consistent /\ ConvergenceDue) => Converged(kernel, desired)
+              /\ known' = IF phase.consistent /\ ~belief.stale /\ Converged(kernel, desired)
                             THEN known \cup { <<c, kernel[c]>> : c \in DOMAIN kernel } ELSE known
-         ELSE phase.envFail /\ UNCHANGED known
+         ELSE (phase.envFail \/ ~phase.consistent) /\ UNCHANGED known
     /\ phase' = [phase EXCEPT !.inApply = FALSE]
     /\ UNCHANGED <<cfg, desired, kernel, belief>>
 =============================================================================
